@@ -10,5 +10,5 @@ use crate::shims::scursor::WriteCursor;
 //@|        r is Ok ==> is_mbap_frame(final(cursor).buf(), final(cursor).pos as int, header.tx_id->Some_0.v(), header.destination.spec_value(), function.spec_value(), msg)
 //@|            && r->Ok_0.pdu_body.start == 8 && r->Ok_0.pdu_body.end == final(cursor).pos,
 //@|        r matches Err(RequestError::Exception(e)) ==> msg.ser_exc(e),
-//@|        r is Err ==> (r->Err_0 is Exception || r->Err_0 is Internal),
+//@|        r is Err ==> (r->Err_0 is Exception || r->Err_0 is Internal || (r->Err_0 is BadRequest && msg.ser_may_reject())),
 //@entry| broadcast use crate::shims::scursor::lemma_subrange_update_outside;
